@@ -5,8 +5,14 @@
 //!
 //! case.inp: x (n rows of p ints), y (n rows of t ints), ln/ld (penalty), rn/rd (l1 ratio),
 //!           icpt, ft ("f64"|"f32"), form ("owned"|"view"|"fview"), maxit, te (tolerance 10^-te),
-//!           lte (0 = none, else a second fit with tolerance 10^-lte is recorded as event "loose")
-//! events:   {"ev":"fit"|"loose", "res":"ok"|"err", "sane":bool, "w":[p][t], "b":[t], "gap", "steps",
+//!           lte (0 = none, else a second fit with tolerance 10^-lte is recorded as event "loose"),
+//!           ue (optional unit exponent, default 0): the targets handed to the estimator are y * 2^ue (exact in
+//!           binary floating point) and the l1 weight of the penalty is multiplied by 2^ue (penalty' = l1w*2^ue + l2w,
+//!           l1_ratio' = l1w*2^ue / penalty'), which is the same problem expressed in another unit of the target.
+//!           Results are logged in the unit of the case: coefficients, intercepts and predictions at scale
+//!           10^5 * 2^-ue, the gap at 10^5 * 2^-2ue (divisions by powers of two, exact).
+//!           When ue /= 0 and lte > 0 the loose fit is repeated with ue = 0 (event "loose0"): unit equivariance.
+//! events:   {"ev":"fit"|"loose"|"loose0", "res":"ok"|"err", "sane":bool, "w":[p][t], "b":[t], "gap", "steps",
 //!            "zero":[p][t] (coefficient is exactly 0.0), "yhat":[n][t] (predict on the training records)}
 use linfa::traits::{Fit, Predict};
 use linfa::{DatasetBase, Float};
@@ -39,16 +45,25 @@ struct Fitted {
     gap: f64,
     steps: i64,
     yhat: Vec<Vec<f64>>, // n x t
+    zero: Vec<Vec<bool>>, // filled by `event` from the raw coefficients
 }
 
-fn event(name: &str, r: Result<Fitted, String>) -> Value {
+fn event(name: &str, r: Result<Fitted, String>, unit: f64) -> Value {
+    let r = r.map(|f| Fitted {
+        w: f.w.iter().map(|r| r.iter().map(|v| v / unit).collect()).collect(),
+        b: f.b.iter().map(|v| v / unit).collect(),
+        gap: f.gap / (unit * unit),
+        steps: f.steps,
+        yhat: f.yhat.iter().map(|r| r.iter().map(|v| v / unit).collect()).collect(),
+        zero: f.w.iter().map(|r| r.iter().map(|v| *v == 0.0).collect()).collect(),
+    });
     match r {
         Err(e) => json!({"ev": name, "res": "err", "msg": e.chars().filter(|c| c.is_ascii() && *c != '"' && *c != '\\').take(120).collect::<String>(),
                          "sane": false, "w": [], "b": [], "gap": 0, "steps": 0, "zero": [], "yhat": []}),
         Ok(f) => {
             let mut sane = true;
             let w: Vec<Value> = f.w.iter().map(|r| Value::Array(r.iter().map(|v| fxs(*v, &mut sane)).collect())).collect();
-            let zero: Vec<Value> = f.w.iter().map(|r| Value::Array(r.iter().map(|v| json!(*v == 0.0)).collect())).collect();
+            let zero: Vec<Value> = f.zero.iter().map(|r| Value::Array(r.iter().map(|v| json!(*v)).collect())).collect();
             let b: Vec<Value> = f.b.iter().map(|v| fxs(*v, &mut sane)).collect();
             let yhat: Vec<Value> = f.yhat.iter().map(|r| Value::Array(r.iter().map(|v| fxs(*v, &mut sane)).collect())).collect();
             let gap = fxs(f.gap, &mut sane);
@@ -71,8 +86,10 @@ fn run_typed<F: Float>(kind: &str, inp: &Value) -> Vec<Value> {
     } else {
         Array2::from_shape_fn((n, p), |(i, j)| F::cast(xr[i][j] as f64))
     };
-    let y2: Array2<F> = Array2::from_shape_fn((n, t), |(i, j)| F::cast(yr[i][j] as f64));
-    let y1: Array1<F> = Array1::from_shape_fn(n, |i| F::cast(yr[i][0] as f64));
+    let ue = inp.get("ue").and_then(|v| v.as_i64()).unwrap_or(0) as i32;
+    let y2u = |u: f64| -> Array2<F> { Array2::from_shape_fn((n, t), |(i, j)| F::cast(yr[i][j] as f64 * u)) };
+    let y1u = |u: f64| -> Array1<F> { Array1::from_shape_fn(n, |i| F::cast(yr[i][0] as f64 * u)) };
+    let y1 = y1u(1.0);
     let mut out = vec![];
 
     match kind {
@@ -92,27 +109,37 @@ fn run_typed<F: Float>(kind: &str, inp: &Value) -> Vec<Value> {
                         gap: 0.0,
                         steps: 0,
                         yhat: yh.iter().map(|v| vec![f2(*v)]).collect(),
+                        zero: vec![],
                     }
                 })
                 .map_err(|e| e.to_string())
             });
             match r {
-                Ok(r) => out.push(event("fit", r)),
+                Ok(r) => out.push(event("fit", r, 1.0)),
                 Err(msg) => out.push(panic_event("fit", &msg)),
             }
         }
         "enet" | "mtl" => {
-            let pen = F::cast(geti(inp, "ln") as f64 / geti(inp, "ld") as f64);
+            let (ln, ld) = (geti(inp, "ln") as f64, geti(inp, "ld") as f64);
             let (rn, rd) = (geti(inp, "rn"), geti(inp, "rd"));
-            let l1 = F::cast(rn as f64 / rd as f64);
             let maxit = geti(inp, "maxit") as u32;
             let te = geti(inp, "te");
             let lte = geti(inp, "lte");
-            let mut runs = vec![("fit", te)];
+            let mut runs = vec![("fit", te, ue)];
             if lte > 0 {
-                runs.push(("loose", lte));
+                runs.push(("loose", lte, ue));
+                if ue != 0 {
+                    runs.push(("loose0", lte, 0));
+                }
             }
-            for (name, e) in runs {
+            for (name, e, uexp) in runs {
+                let unit = 2f64.powi(uexp);
+                // the case's problem in the unit `unit` of the target: l1 weight scales with the unit, l2 weight does not
+                let l1w = ln * rn as f64 / (ld * rd as f64) * unit;
+                let l2w = ln * (rd - rn) as f64 / (ld * rd as f64);
+                let pen = F::cast(l1w + l2w);
+                let l1 = F::cast(if l1w + l2w > 0.0 { l1w / (l1w + l2w) } else { rn as f64 / rd as f64 });
+                let (y1, y2) = (y1u(unit), y2u(unit));
                 let tol = F::cast(10f64.powi(-(e as i32)));
                 let r = guarded(|| {
                     if kind == "enet" {
@@ -138,6 +165,7 @@ fn run_typed<F: Float>(kind: &str, inp: &Value) -> Vec<Value> {
                                 gap: f2(m.duality_gap()),
                                 steps: m.n_steps() as i64,
                                 yhat: yh.iter().map(|v| vec![f2(*v)]).collect(),
+                                zero: vec![],
                             }
                         })
                         .map_err(|e| e.to_string())
@@ -163,13 +191,14 @@ fn run_typed<F: Float>(kind: &str, inp: &Value) -> Vec<Value> {
                                 gap: f2(m.duality_gap()),
                                 steps: m.n_steps() as i64,
                                 yhat: yh.outer_iter().map(|r| r.iter().map(|v| f2(*v)).collect()).collect(),
+                                zero: vec![],
                             }
                         })
                         .map_err(|e| e.to_string())
                     }
                 });
                 match r {
-                    Ok(r) => out.push(event(name, r)),
+                    Ok(r) => out.push(event(name, r, unit)),
                     Err(msg) => out.push(panic_event(name, &msg)),
                 }
             }
